@@ -27,3 +27,8 @@ reg('C05', 'exploration', 'X (exhaustive input enumerator)', 'bounded exhaustive
     'Every arithmetic form on tainted pointers is executed for every element-aligned base address of a 64 KiB foreign-ABI sandbox (and null), for 11 pointee types whose guest size differs from the host size, with n drawn from every integer type (boundary-directed values incl. products beyond 2^32/2^64), as plain, tainted and tainted_volatile operands; each result is compared with the exact address p +- n*s_guest or a required abort.',
     'Guest sizes come from a hand-written layout table; bases are exhaustive only on the 16-bit instance (32-bit instance: boundary bases); aborts observed via the custom-abort flag.',
     'DESIGN.md section 3, C05')
+
+reg('C17', 'exploration', 'X (exhaustive input enumerator)', 'bounded exhaustive input enumeration vs mathematical-integer reference',
+    'Indexing of tainted and tainted_volatile fixed-size arrays (lengths 1..16, 2-D shapes, 7 element types whose guest size differs from the host) is executed with every value of every 8/16-bit index type and boundary/aliasing values of 32/64-bit index types, plain and wrapped; abort iff out of range, otherwise exact element address under the right layout and a canary-checked store.',
+    'Aborts observed via the custom-abort flag; wider index types are boundary/aliasing-complete, not value-complete.',
+    'DESIGN.md section 3, C17')
